@@ -15,7 +15,7 @@ Theorem C32_guarded_except_known : forall o ps p st ow,
 Proof. exact guarded_except_known. Qed.
 Print Assumptions C32_guarded_except_known.
 
-(* The mutators and loaders proper (Attribute.__set__/load, Set.load, SetInstance.add/remove/clear/load/+=/-=,
+(* The mutators and loaders proper (Attribute.__set__/load, Set.load, SetInstance.add/remove/clear/create/load/+=/-=,
    Entity.delete/set/load/_load_/_attr_changed_): the result is the session-is-over error and nothing is written,
    in every state, on every path. *)
 Theorem C32_guarded : forall o ps p st,
@@ -26,6 +26,21 @@ Print Assumptions C32_guarded.
 Theorem C32_guarded_nonvacuous : forall o, strictly_guarded o = true -> exists ps, In (o, ps) guard_table /\ ps <> [].
 Proof. exact mutators_present. Qed.
 Print Assumptions C32_guarded_nonvacuous.
+
+(* SetInstance.is_empty, SetInstance.create and Entity.flush (given the guard by /repo 743d82e): every path, every state:
+   nothing is written; a path that needs the session or the database is refused with the session-is-over error; the other
+   paths (is_empty answered from loaded data, flush of an object without unsaved changes) are pure. *)
+Theorem C32_guarded_repaired : forall o ps p st ow,
+  In (o, ps) guard_table -> repaired o = true -> In p ps -> In ow (run st p) ->
+  snd ow = false /\
+  (touches_session p = true -> refused st (fst ow)) /\
+  (touches_session p = false -> harmless st (fst ow)).
+Proof. exact repaired_guarded. Qed.
+Print Assumptions C32_guarded_repaired.
+
+Theorem C32_guarded_repaired_nonvacuous : forall o, repaired o = true -> exists ps, In (o, ps) guard_table /\ ps <> [].
+Proof. exact repaired_present. Qed.
+Print Assumptions C32_guarded_repaired_nonvacuous.
 
 (* SessionCache.close, non-strict (or a session that never connected): loaded values stay readable *)
 Theorem C32_readable : forall connected o l a v,
